@@ -23,6 +23,44 @@ import (
 // (b) interleavings of concurrent library calls under a cooperative scheduler (c07sched.go).
 // (c) free-running -race pass of the same bodies.
 
+// refChainSpec: definitions of grammar G whose context chain goes through $ref contexts (one- and two-hop
+// aliases of validated primitives, arrays and maps) - the shapes for which the model builder looks up
+// validations of *other* definitions while building one.
+func refChainSpec(max int) J {
+	defs, _ := EnumerateDefs(1, 2, "R")
+	d := J{"swagger": "2.0", "info": J{"title": "refchains", "version": "1"}, "paths": J{}, "definitions": J{}}
+	n := 0
+	for _, df := range defs {
+		parts := strings.Split(df.Chain, ">")
+		if len(parts) != 2 || !strings.Contains(df.Chain, "ref") {
+			continue
+		}
+		if df.Kw != "integer:maximum0" && df.Kw != "string:minLength1" {
+			continue
+		}
+		// keep chains made of ref-ish and container contexts only
+		ok := true
+		for _, c := range parts {
+			switch c {
+			case "ref", "refprop", "optrefprop", "ref2prop", "ref2objprop", "array", "map", "array+maxItems2", "props+addl":
+			default:
+				ok = false
+			}
+		}
+		if !ok {
+			continue
+		}
+		if n >= max {
+			break
+		}
+		n++
+		for k, v := range df.Defs() {
+			at(d, "definitions")[k] = v
+		}
+	}
+	return d
+}
+
 func denseSpec() J {
 	d := richSpec()
 	d["consumes"] = A{"application/json", "application/xml", "application/x-tar.gz", "text/plain"}
@@ -64,7 +102,11 @@ func runBin(bin, dir string, env []string, args ...string) CmdResult {
 var c07Thorough bool
 
 func c07Commands(s *Scratch) []c07Cmd {
-	specs := map[string]J{"dense": denseSpec(), "rich": richSpec()}
+	nref := 40
+	if c07Thorough {
+		nref = 200
+	}
+	specs := map[string]J{"dense": denseSpec(), "rich": richSpec(), "refchains": refChainSpec(nref)}
 	var out []c07Cmd
 	gen := func(kind, specName string, extra ...string) c07Cmd {
 		return c07Cmd{Name: fmt.Sprintf("generate %s %s [%s]", kind, strings.Join(extra, " "), specName), Run: func(bin, wdir string, env []string) (tree, string) {
@@ -95,6 +137,7 @@ func c07Commands(s *Scratch) []c07Cmd {
 	for _, sn := range tierSpecs {
 		out = append(out, gen("server", sn), gen("client", sn), gen("model", sn), gen("cli", sn), gen("markdown", sn))
 	}
+	out = append(out, gen("model", "refchains"))
 	// the documented custom layout with skip_format on every template: the raw template output, which
 	// goimports would otherwise re-sort and re-format
 	out = append(out, c07Cmd{Name: "generate server -C <documented layout + skip_format> [dense]", Run: func(bin, wdir string, env []string) (tree, string) {
